@@ -20,7 +20,7 @@ theorem parse_text_name_text (nm L W R' : Str) (hnm : IdentName nm) (hL : L = []
               ⟨some .r_path_inline, a + 2, a + 2 + nm.length⟩, ⟨some .r_path_id, a + 2, a + 2 + nm.length⟩]
             ++ rawTok d n ++ [⟨none, n, n⟩])) := by
   intro a b d n
-  have h := handlebars_text_tag_text L (nm ++ ['}', '}']) W R' (nm.length + 90) _ hL (name_tagAt nm hnm) hA
+  have h := handlebars_text_tag_text L (nm ++ ['}', '}']) W R' (nm.length + 100) _ hL (name_tagAt nm hnm) hA
   have hn : (L ++ identSrc nm ++ (W ++ R')).length = n := by simp [n, d, b, a, identSrc_length]; omega
   simp only [] at h
   have h' := h.weaken (F' := defaultFuel (L ++ identSrc nm ++ (W ++ R')).length) (by
